@@ -4,6 +4,7 @@ import M3d.Model.RectSet
 import M3d.Model.RectSetProg
 import M3d.Model.SmoothSolid
 import M3d.Model.SolidExpr
+import M3d.Model.SmoothNaN
 /-!
 Line-protocol handler for C04.  Core-only.
 
@@ -151,7 +152,14 @@ def handleSJ2F (ws : List String) : Option String := do
   let r ← floatOfHex r
   let es ← es.mapM parseDNF
   if es.isEmpty then none
-  some (boolStr (smoothJoinV2 dim Float.sqrt Float.abs r es))
+  let v := smoothJoinV2 dim Float.sqrt Float.abs r es
+  -- a NaN fillet radius (`cos = 1.0000000000000002` for two identical normals) is unordered: the answer has
+  -- to be the plain union (`smoothV2_unordered_radius_eq_union`; exact arithmetic: `smoothV2_parallel_eq_union`)
+  match smoothV2Slots es with
+  | some (c0, c1) =>
+    let rr := smoothV2Radius dim Float.sqrt Float.abs r c0 c1
+    if rr != rr && v != es.any (fun e => decide (0 < e.1)) then some "model-ne-spec" else some (boolStr v)
+  | none => some (boolStr v)
 
 instance : Inhabited (Box Rat) := ⟨⟨fun _ => 0, fun _ => 0⟩⟩
 instance : Inhabited (Solid Rat) := ⟨⟨default, fun _ => false⟩⟩
